@@ -82,6 +82,17 @@ SIZES_BIG = ([1 << k for k in range(5, 64)] + [(1 << 56) - 2, (1 << 56) - 1, 1 <
 PAGEISH = sorted({4096 * k - 16 + d for k in (1, 2, 3) for d in (-65, -64, -63, -17, -16, -15, -1, 0, 1, 15, 16, 17, 63, 64, 65)}
                  | {3000, 4097, 4104, 4900, 5000, 5001, 7500, 8176, 8191, 8192, 8193, 9096})
 
+# sizes of 100 KiB and more (thresholds such as 128 KiB, 200 000, 1 MiB): used by the `huge` profile only
+HUGE = sorted({102400, 102401, 131056, 131072, 131073, 150000, 150010, 199000, 200000, 200016, 300000, (1 << 20) - 16, (1 << 20) - 1,
+               1 << 20, (1 << 20) + 1, (1 << 20) + 1000, (1 << 20) + 4321, 1500000, 1572864, (3 << 20) + 17})
+def huge_text(rng, n):
+    """n bytes of valid UTF-8 built from a short repeating chunk (cheap to generate)"""
+    chunk = b''.join(enc(rng.pick(ALLCH)) for _ in range(13)) or b'x'
+    out = (chunk * (n // len(chunk) + 1))[:n]
+    while out and (out[-1] & 0xC0) == 0x80: out = out[:-1]
+    while out and out[-1] >= 0xC0: out = out[:-1]
+    return out + b'x' * (n - len(out))
+
 class Slot:
     __slots__ = ('text', 'kind', 'cap', 'grp')   # kind guess: 'I','H','S'; capacity guess; sharing group (steering only)
     def __init__(self, text, kind, cap=None, grp=None):
@@ -114,6 +125,12 @@ class CaseGen:
         c = r.weighted([('from_str', 10), ('static', 5), ('with_capacity', 4), ('new', 2), ('char', 1), ('bool', 1),
                         ('collect_chars', 2), ('collect_strs', 1), ('display', 2), ('int', 2)])
         if self.p.get('steer') and r.chance(1, 4): c = r.pick(['with_capacity', 'with_capacity', 'display'])
+        if self.p.get('huge') and c in ('from_str', 'with_capacity', 'static', 'new'):
+            if r.chance(1, 2):
+                n = r.pick(HUGE) + r.pick([0, 0, 10, 1000]); self.emit(self.mode(), 'with_capacity', n)
+                self.slots.append(Slot(b'', 'H', cap=n)); return
+            t = huge_text(r, r.pick(HUGE)); self.emit('plain', 'from_str', r.pick(['from', 'string', 'box']), hexs(t))
+            self.slots.append(Slot(t, 'H')); return
         if c == 'from_str':
             t = gen_text(r, r.pick(PAGEISH)) if self.p.get('large') and r.chance(1, 2) else gen_text(r)
             route = r.pick(['from', 'from', 'string', 'refstring', 'box', 'cowb', 'cowo', 'parse', 'tls', 'utf8', 'collect1'])
@@ -175,6 +192,8 @@ class CaseGen:
         c = r.weighted([('push', 8), ('push_str', 8), ('pop', 5), ('remove', 5), ('insert', 5), ('insert_str', 5),
                         ('truncate', 6), ('clear', 2), ('retain', 4), ('reserve', 5), ('shrink_to', 5), ('shrink_to_fit', 2),
                         ('extend_chars', 3), ('extend_strs', 2), ('write_fmt', 2), ('clone', 10), ('clone_from', 3), ('drop', 4)])
+        if self.p.get('huge'):
+            return self.op_huge(i)
         steer = self.p.get('steer')
         spare = max(0, (s.cap or 0) - L)
         shares = s.grp is not None and sum(1 for x in self.slots if x is not None and x.grp == s.grp) > 1
@@ -303,6 +322,48 @@ class CaseGen:
         elif c == 'drop':
             self.emit('plain', 'drop', i); self.slots[i] = None
 
+    def op_huge(self, i):
+        """few, cheap operations on very large buffers: growth, shrinking by a sliver, emptied buffers, sharers"""
+        r = self.r; s = self.slots[i]; t = s.text; L = len(t); cap = max(s.cap or 0, L)
+        c = r.weighted([('push', 4), ('push_str', 5), ('reserve', 6), ('shrink_to', 8), ('shrink_to_fit', 3), ('clear', 2), ('truncate', 3),
+                        ('clone', 4), ('drop', 2), ('insert_str', 2), ('remove', 2), ('extend_strs', 1)])
+        if c == 'push':
+            self.emit(self.mode(), 'push', i, 97); s.text = t + b'a'; s.cap = max(cap, L + 1)
+        elif c == 'push_str':
+            n = r.pick([1, 10, 1000, max(1, cap - L), max(1, cap - L + 1), (1 << 20) + 1]); x = huge_text(r, n)
+            self.emit(self.mode(), 'push_str', r.pick(['push_str', 'add_assign', 'extend1']), i, hexs(x)); s.text = t + x; s.cap = max(cap, L + n)
+        elif c == 'reserve':
+            n = r.pick([0, 1, 10, max(0, cap - L), max(0, cap - L) + 1, (1 << 20), (1 << 20) + 1, 1 << 50, (1 << 56) - 17 - L, (1 << 64) - 1 - L // 2])
+            self.emit(self.mode(), 'reserve', i, n)
+            if n < (1 << 24): s.cap = max(cap, L + n)
+        elif c == 'shrink_to':
+            n = r.pick([0, L, L + 1, max(0, cap - 1), max(0, cap - 100), max(0, cap - 1000), max(0, cap - cap // 200), max(0, cap - 4000), max(0, cap - 5000), cap, cap + 1])
+            self.emit(self.mode(), 'shrink_to', i, n); s.cap = min(cap, max(L, n))
+        elif c == 'shrink_to_fit':
+            self.emit(self.mode(), 'shrink_to_fit', i); s.cap = L
+        elif c == 'clear':
+            self.emit('plain', 'clear', i); s.text = b''
+        elif c == 'truncate':
+            n = r.pick([0, 1, 5, 16, 17, L // 2, max(0, L - 1)]); n = min(n, L)
+            while 0 < n < L and (t[n] & 0xC0) == 0x80: n -= 1
+            self.emit(self.mode(), 'truncate', i, n); s.text = t[:n]
+        elif c == 'clone':
+            self.emit('plain', 'clone', 'clone', i); self.slots.append(Slot(s.text, s.kind, cap=s.cap))
+        elif c == 'drop':
+            self.emit('plain', 'drop', i); self.slots[i] = None
+        elif c == 'insert_str':
+            x = huge_text(r, r.pick([1, 3, 1000])); idx = r.pick([0, L])
+            self.emit(self.mode(), 'insert_str', i, idx, hexs(x)); s.text = t[:idx] + x + t[idx:]
+        elif c == 'remove':
+            if L == 0: self.emit(self.mode(), 'pop', i)
+            else:
+                k = 1
+                while k < L and (t[k] & 0xC0) == 0x80: k += 1
+                self.emit(self.mode(), 'remove', i, 0); s.text = t[k:]
+        elif c == 'extend_strs':
+            ss = [huge_text(r, r.pick([1, 20, 1000])) for _ in range(r.pick([1, 2]))]
+            self.emit('plain', 'extend_strs' + r.pick(['', ':string', ':lean']), i, -1, *[hexs(x) for x in ss]); s.text = t + b''.join(ss)
+
     def run(self, nsteps):
         r = self.r
         for _ in range(r.pick([0, 1, 1, 2, 3])):
@@ -342,6 +403,9 @@ PROFILES = {
     # states a random walk rarely reaches: sharers of different lengths, appends into reserved room with exact hints
     'steered': dict(steps=[6, 10, 16], steer=True, big_sizes=True, user_panics=True, bad_indices=True),
     'steered_faults': dict(steps=[6, 10, 16], steer=True, faults=True, user_panics=True, fault_range=10),
+    # a handful of cheap operations on buffers of 100 KiB .. 3 MiB
+    'huge': dict(steps=[3, 4, 5, 6], huge=True, limit=1 << 26),
+    'huge_faults': dict(steps=[3, 4, 5], huge=True, faults=True, fault_range=6, limit=1 << 26),
     'faults_hostile': dict(steps=[6, 10, 16], faults=True, bad_indices=True, big_sizes=True, user_panics=True, fault_range=10),
 }
 
